@@ -24,6 +24,7 @@ enum { VF_ST_DONE = 0, VF_ST_FATAL = 1, VF_ST_HORIZON = 2, VF_ST_MISMATCH = 3 };
 
 typedef struct {
 	int alive, is_file, src, srcpos, handle_valid, user_mem;
+	int line;            /* VF_BUF_LINENO: 1 + newlines consumed from this buffer (reentrant scanners count per buffer) */
 	int eof_told;        /* the source has answered 'end of input' and neither yywrap nor the user has intervened since */
 	vf_ref R;
 	yybuffer h;
@@ -52,6 +53,13 @@ static int vf_exec_ops, vf_exec_bufs;
 static int vf_reported;
 static char vf_hist[512]; static int vf_hist_len;
 static const char *vf_mm_what; static int vf_mm_a, vf_mm_b;
+static int vf_line_g = 1;                  /* VF_BUF_LINENO, non-reentrant scanner: one count for the whole scanner */
+static int vf_in_input, vf_input_eof;      /* VF_ACTION_INPUT: inside yyinput(); yywrap() said 1 during that call */
+#if defined(VF_API_NR)
+#define VF_LINE(b) vf_line_g
+#else
+#define VF_LINE(b) vf_B[b].line
+#endif
 
 static void vf_hard_error(const char *why)
 {
@@ -161,7 +169,7 @@ static int vf_new_file_buf(int src)
 	int b = vf_nB++;
 	if (b >= VF_NB) vf_hard_error("model buffer table full");
 	memset(&vf_B[b], 0, sizeof vf_B[b]);    /* the first use of a slot has a NULL R.buf; later uses leak one small buffer per execution: freed below */
-	vf_B[b].alive = 1; vf_B[b].is_file = 1; vf_B[b].src = src; vf_B[b].srcpos = 0;
+	vf_B[b].alive = 1; vf_B[b].is_file = 1; vf_B[b].src = src; vf_B[b].srcpos = 0; vf_B[b].line = 1;
 	vf_ref_init(&vf_B[b].R, vf_srcs[src].d, vf_srcs[src].n, 0);
 	vf_src_used[src] = 1;
 	vf_exec_bufs++;
@@ -172,7 +180,7 @@ static int vf_new_mem_buf(const unsigned char *d, int n)
 	int b = vf_nB++;
 	if (b >= VF_NB) vf_hard_error("model buffer table full");
 	memset(&vf_B[b], 0, sizeof vf_B[b]);
-	vf_B[b].alive = 1; vf_B[b].is_file = 0; vf_B[b].src = -1;
+	vf_B[b].alive = 1; vf_B[b].is_file = 0; vf_B[b].src = -1; vf_B[b].line = 1;
 	vf_ref_init(&vf_B[b].R, d, n, 0);
 	vf_exec_bufs++;
 	return b;
@@ -191,6 +199,7 @@ static void vf_act(int act, const char *text, long leng, int start, int lineno, 
 	vf_ref *R;
 	(void)lineno; (void)atbol;
 	vf_step();
+	if (vf_in_input) vf_fail("an action ran inside yyinput()", act, 0);
 	if (start != vf_sc) vf_fail("start condition changed without yybegin", vf_sc, start);
 	if (act > (int)YY_END_OF_BUFFER) {
 		/* an explicit <<EOF>> action: only after yywrap said there is no more input, and only the one of this condition */
@@ -210,7 +219,55 @@ static void vf_act(int act, const char *text, long leng, int start, int lineno, 
 	vf_ref_commit(R, (int)leng);
 	if (memcmp(text, R->text, (size_t)leng) != 0) vf_fail("yytext (bytes of another buffer or position)", c, act);
 	if (vf_B[c].is_file && (R->head - VF_FRONT) > vf_B[c].srcpos) vf_fail("token uses bytes never handed to the scanner", R->head - VF_FRONT, vf_B[c].srcpos);
+#ifdef VF_BUF_LINENO
+	{
+		/* C09: one plus the newlines consumed - per scanner (non-reentrant) or per buffer (reentrant, c99); no buffer operation,
+		 * flush included, consumes anything */
+		long i;
+		for (i = 0; i < leng; i++) if (text[i] == '\n') VF_LINE(c)++;
+		if (lineno != VF_LINE(c)) vf_fail("yylineno", VF_LINE(c), lineno);
+	}
+#endif
 	vf_n_tokens++;
+}
+
+/* yyinput() from an action (the comment-eating idiom): the next byte of the current buffer; at its end yywrap() is consulted and may
+ * switch buffers, pop back, or name a new yyin - then the byte comes from there; only when yywrap() says 1 the end-of-input value */
+static long vf_n_inputs, vf_n_input_eofs;
+static int vf_action_input(void)
+{
+#ifdef VF_ACTION_INPUT
+	if (vf_exec_ops >= VF_MAX_OPS) return 0;
+	if (!vf_choose(2, VF_K_OP)) return 0;
+	vf_exec_ops++;
+	vf_log("aI ", 0, 0);
+	vf_in_input = 1; vf_input_eof = 0;
+	return 1;
+#else
+	return 0;
+#endif
+}
+static void vf_did_input_b(int ch, int lineno)
+{
+	int c = vf_cur(), exp;
+	(void)lineno;
+	vf_step();
+	vf_in_input = 0;
+	vf_n_inputs++;
+	if (vf_input_eof) {
+		vf_input_eof = 0; vf_n_input_eofs++;
+		if (ch != 0 && ch != EOF) vf_fail("yyinput() at the end of all input (yywrap said so) returned a character", -1, ch);
+		return;
+	}
+	if (c < 0 || !vf_B[c].alive) vf_fail("yyinput() returned although no buffer is current in the model", c, ch);
+	exp = vf_ref_input(&vf_B[c].R);
+	if (exp < 0) vf_fail("yyinput() returned without consulting yywrap at the end of the current buffer", c, ch);
+	if (ch != exp) vf_fail("yyinput() value (byte of another buffer or position)", exp, ch);
+	if (vf_B[c].is_file && (vf_B[c].R.head - VF_FRONT) > vf_B[c].srcpos) vf_fail("yyinput() returned a byte never handed to the scanner", vf_B[c].R.head - VF_FRONT, vf_B[c].srcpos);
+#ifdef VF_BUF_LINENO
+	if (ch == '\n') VF_LINE(c)++;
+	if (lineno != VF_LINE(c)) vf_fail("yylineno after yyinput()", VF_LINE(c), lineno);
+#endif
 }
 
 /* action of the 'c' rules: toggles the start condition so that its persistence across buffer operations is visible */
@@ -326,7 +383,12 @@ int yywrap(yyscan_t yyscanner)
 			return 0;
 		}
 	}
-	if (ch == 0) { vf_log("w1 ", 0, 0); vf_expect_eof_body = (vf_eof_rule[vf_sc] >= 0); return 1; }
+	if (ch == 0) {
+		vf_log("w1 ", 0, 0);
+		if (vf_in_input) { vf_input_eof = 1; return 1; }     /* yyinput() reports the end; the next yylex() meets it again */
+		vf_expect_eof_body = (vf_eof_rule[vf_sc] >= 0);
+		return 1;
+	}
 	if (ch == 1) {
 		/* point yyin at another source: scanning continues in the same buffer, unchanged condition, at beginning of line */
 		vf_log("wI%d ", k, 0);
@@ -663,6 +725,17 @@ static int vf_between_calls(void)
 		}
 		break;
 	}
+#ifdef VF_BUF_LINENO
+	/* what the user reads back between calls: the count of the buffer that is current now */
+	if (vf_cur() >= 0 && vf_B[vf_cur()].alive && VF_CUR() != 0) {
+#if defined(VF_API_NR)
+		int now = yylineno;
+#else
+		int now = yyget_lineno(vf_scanner);
+#endif
+		if (now != VF_LINE(vf_cur())) vf_fail("yylineno read between calls", VF_LINE(vf_cur()), now);
+	}
+#endif
 	return 1;
 }
 
@@ -724,6 +797,7 @@ static void vf_run_one(void)
 	int st, i;
 	for (i = 0; i < vf_nB; i++) { free(vf_B[i].R.buf); vf_B[i].R.buf = 0; vf_B[i].R.cap = 0; }
 	vf_nB = 0; vf_sp = 0; vf_sc = 0; vf_yyin_src = -1; vf_yyin_fresh = 0; vf_terminated = 0; vf_steps = 0; vf_lexed_once = 0; vf_pending_yyin = 0; vf_expect_eof_body = 0;
+	vf_line_g = 1; vf_in_input = 0; vf_input_eof = 0;
 	vf_hist_len = 0; vf_hist[0] = 0; vf_expected_fatal = 0; vf_exec_ops = 0; vf_exec_bufs = 0; vf_userbuf_n = 0;
 	memset(vf_src_used, 0, sizeof vf_src_used);
 #ifdef VF_EXPECT_FATAL
@@ -794,7 +868,7 @@ int main(int argc, char **argv)
 #endif
 	for (bound = 0; bound <= VF_BUDGET_TOTAL; bound++) {
 		vf_budget_total = bound;
-		vf_n_tokens = vf_n_mismatch = vf_n_fatal = vf_n_horizon = vf_n_reads = vf_n_eof_actions = vf_n_wraps = 0;
+		vf_n_tokens = vf_n_mismatch = vf_n_fatal = vf_n_horizon = vf_n_reads = vf_n_eof_actions = vf_n_wraps = vf_n_inputs = vf_n_input_eofs = 0;
 		vf_executions = vf_choice_points = vf_n_expected_fatal = vf_n_nontrivial = 0;
 		memset(vf_n_calls, 0, sizeof vf_n_calls);
 		vf_reported = 0;
@@ -803,9 +877,9 @@ int main(int argc, char **argv)
 	}
 	vf_fresh();
 	fprintf(vf_out, "{\"summary\":1,\"timed_out\":%d,\"executions\":%ld,\"tokens\":%ld,\"mismatches\":%ld,\"fatals\":%ld,\"horizons\":%ld,\"reads\":%ld,"
-		"\"eof_actions\":%ld,\"yywraps\":%ld,\"choice_points\":%ld,\"overflow\":%d,\"bound\":%d,\"nontrivial\":%ld,\"expected_fatals\":%ld,\"calls\":[",
+		"\"eof_actions\":%ld,\"yywraps\":%ld,\"choice_points\":%ld,\"overflow\":%d,\"bound\":%d,\"nontrivial\":%ld,\"expected_fatals\":%ld,\"inputs\":%ld,\"input_eofs\":%ld,\"calls\":[",
 		vf_timed_out, vf_executions, vf_n_tokens, vf_n_mismatch, vf_n_fatal, vf_n_horizon, vf_n_reads, vf_n_eof_actions, vf_n_wraps, vf_choice_points,
-		vf_overflow, bound > VF_BUDGET_TOTAL ? VF_BUDGET_TOTAL : bound, vf_n_nontrivial, vf_n_expected_fatal);
+		vf_overflow, bound > VF_BUDGET_TOTAL ? VF_BUDGET_TOTAL : bound, vf_n_nontrivial, vf_n_expected_fatal, vf_n_inputs, vf_n_input_eofs);
 	for (i = 0; i < OP_NOPS; i++) fprintf(vf_out, "%s%ld", i ? "," : "", vf_n_calls[i]);
 	fprintf(vf_out, "]");
 #ifdef VF_LEDGER
